@@ -244,8 +244,7 @@ func treeCmd(args []string) *rep.Result {
 	if *walks > 0 {
 		graph := map[string][]*Edge{}
 		for _, e := range edges {
-			k, _ := json.Marshal(e.Pre)
-			graph[string(k)] = append(graph[string(k)], e)
+			graph[treeKey(&e.Pre)] = append(graph[treeKey(&e.Pre)], e)
 		}
 		for _, pkg := range c.packages() {
 			for _, v := range c.variantsFor(cp, pkg) {
@@ -257,6 +256,22 @@ func treeCmd(args []string) *rep.Result {
 		}
 	}
 	return res
+}
+
+// treeKey is a canonical key of an abstract tree (nil and empty slices coincide).
+func treeKey(a *conc.ATree) string {
+	n := func(r []json.RawMessage) []json.RawMessage {
+		if r == nil {
+			return []json.RawMessage{}
+		}
+		return r
+	}
+	ct := a.Ct
+	if ct == nil {
+		ct = [][]string{}
+	}
+	k, _ := json.Marshal(conc.ATree{Lv: n(a.Lv), Ll: n(a.Ll), En: n(a.En), Oe: n(a.Oe), Ct: ct})
+	return string(k)
 }
 
 func kindOfPath(e *Edge) string {
@@ -607,19 +622,10 @@ func runWalk(graph map[string][]*Edge, pkg *reg.Pkg, x *conc.Ctx, n int, rng *ra
 	cur := &conc.ATree{}
 	var hist []*Edge
 	for i := 0; i < n; i++ {
-		k, _ := json.Marshal(cur)
-		outs := graph[string(k)]
+		outs := graph[treeKey(cur)]
 		if len(outs) == 0 {
-			// JSON key order of the emitted trees is fixed by TLC, an unmatched state means the
-			// walk left the emitted graph (should not happen)
-			if i == 0 {
-				k2, _ := json.Marshal(conc.ATree{Lv: []json.RawMessage{}, Ll: []json.RawMessage{}, En: []json.RawMessage{}, Oe: []json.RawMessage{}, Ct: [][]string{}})
-				outs = graph[string(k2)]
-			}
-			if len(outs) == 0 {
-				res.InfraErr("walk: state not in graph: %s", k)
-				return
-			}
+			res.InfraErr("walk: state not in graph: %s", treeKey(cur))
+			return
 		}
 		e := outs[rng.Intn(len(outs))]
 		enc := "typed"
